@@ -1076,6 +1076,44 @@ def work_rec(chunk):
     return st.d
 
 
+# ---------------------------------------------------------------------------------------------
+# part (f): the arguments of a projection are evaluated when the projection is made
+
+# (programs, expected value of the last one): the fixed argument is a variable that is rebound, or a call with a side
+# effect, between making the projection and filling its last hole; by substitution the projection stands for the body
+# with the value the argument had when it was supplied
+PROJ_TIME = [
+    (['f::{x-y}', 'v::10', 'p::f(v;)', 'v::20', 'p(3)'], 7),
+    (['f::{x-y}', 'v::10', 'p::f(;v)', 'v::20', 'p(3)'], -7),
+    (['f::{x-y-z}', 'v::10', 'p::f(v;;)', 'v::20', 'q::p(1;)', 'q(2)'], 11),
+    (['f::{x-y}', 'n::0', 'c::{n::n+1;n}', 'p::f(c();)', 'p(1)', 'p(1)', 'n'], 1),
+    (['f::{x-y}', 'adder::{f(x;)}', 'q::adder(10)', 'q(3)'], 7),
+]
+
+
+def work_projtime(chunk):
+    st = Stats()
+    for progs, want in chunk:
+        k = KlongInterpreter()
+
+        def seq():
+            r = None
+            for p in progs:
+                r = k(p)
+            return r
+        obs = outcome(seq)
+        st.d['evals'] += len(progs)
+        st.d['calls'] += 1
+        st.d['states'] += 1
+        st.form('projection-argument-time')
+        observed = show_outcome(obs)
+        st.d['outcomes'].add(hash(observed))
+        if obs != ('ok', I(want)):
+            st.violation(';'.join(progs), observed, 'ok:%d' % want, dict(part='f', programs=progs), snippet_for(progs),
+                         'projection-arguments-evaluated-at-call-time')
+    return st.d
+
+
 def k2list(v):
     return np.array(v) if isinstance(v, list) else v
 
@@ -1136,12 +1174,12 @@ def run(cfg):
             pooled[tag]['samples'] = sorted(pooled[tag].get('samples', []))[:3]     # order-independent choice
     t_pool = round(time.time() - t0, 1)
     t0 = time.time()
-    items_b, items_d, items_e = proj_items(cfg), cond_items(cfg), rec_items(cfg)
-    part_b, part_d, part_e = work_proj(items_b), work_cond(items_d), work_rec(items_e)
+    items_b, items_d, items_e, items_f = proj_items(cfg), cond_items(cfg), rec_items(cfg), list(PROJ_TIME)
+    part_b, part_d, part_e, part_f = work_proj(items_b), work_cond(items_d), work_rec(items_e), work_projtime(items_f)
     t_inline = round(time.time() - t0, 1)
     for name, items, part, wall in (('a', items_a, pooled['a'], t_pool), ('b', items_b, part_b, t_inline),
                                     ('c', items_c, pooled['c'], t_pool), ('d', items_d, part_d, t_inline),
-                                    ('e', items_e, part_e, t_inline)):
+                                    ('e', items_e, part_e, t_inline), ('f', items_f, part_f, t_inline)):
         parts[name] = dict(items=len(items), wall_s_shared=wall, evals=part.get('evals', 0),
                            calls=part.get('calls', 0),
                            states=part.get('states', 0), violations=len(part.get('violations', [])),
@@ -1184,6 +1222,7 @@ def run(cfg):
                  % (cfg.pick('bodies <= 1 node at nesting depth 1, 2, 3; bodies with 2 nodes at depth 3 with 1 tuple',
                              'every body at nesting depth 1, 2, 3'),
                     len(cfg.pick(FAULT_TUPLES_Q, FAULT_TUPLES_T)), len(BATTERY)),
+            'f': '%d programs in which the fixed argument of a projection is rebound / has a side effect between the steps' % len(PROJ_TIME),
             'e': '%d functions that declare locals and recurse through .f x depths 0..%d, called directly and from another '
                  'function that declares a local of the same name; expected values from a hand-written model'
                  % (len(REC_LOCALS), cfg.pick(3, 6)),
